@@ -7,6 +7,7 @@
 //! implementation-side property oracle fails for that request.
 mod c01;
 mod c02;
+mod c03;
 mod c04;
 mod c06;
 mod c07;
@@ -36,6 +37,7 @@ fn run_line(prop: &str, line: &str) -> String {
   let r = std::panic::catch_unwind(|| match prop {
     "C01" => c01::run(args),
     "C02" => c02::run(args),
+    "C03" => c03::run(args),
     "C04" => c04::run(args),
     "C06" => c06::run(args),
     "C07" => c07::run(args),
@@ -74,6 +76,7 @@ fn main() {
       match prop {
         "C01" => c01::gen(thorough, seed, &mut out),
         "C02" => c02::gen(thorough, seed, &mut out),
+        "C03" => c03::gen(thorough, seed, &mut out),
         "C04" => c04::gen(thorough, seed, &mut out),
         "C06" => c06::gen(thorough, seed, &mut out),
         "C07" => c07::gen(thorough, seed, &mut out),
